@@ -20,6 +20,13 @@
 (*   (d) a three-level energy accumulator with a fault action               *)
 (* Every Level-B model writes the same record fields the harness logs, so   *)
 (* the same Level-A operators judge model states and recorded states.       *)
+(* Bounded configs (MCTrainSim_*.cfg; distinct states, seconds on 8 idle    *)
+(* workers): locateQ 3 links x 3 moves 6 375 / 1.4 s, locateT 4 links       *)
+(* 50 493 / 2 s (every (route, front sequence) emitted), strapE 30 302 /    *)
+(* 3 s (emitted), strapQ3 99 335 / 7 s, strapQ depth 4 447 557 / 38 s,      *)
+(* strapT 4 segments depth 4 1 484 686 / 2-5 min, ledger 4 625 / 1 s,       *)
+(* fault 66 284 / 2.5 s (invariant FaultDetected: a skipped update always   *)
+(* breaks the equalities).                                                   *)
 (*                                                                          *)
 (* Numbers. Set-speed runs ("ss") are toy-scale and dyadic: every logged    *)
 (* quantity that the code computes without g / rho_air is exactly on its    *)
@@ -90,9 +97,11 @@ FollowSpeedOf(h, c) == c.v = h.tv[c.k + 1]
 MassCompoundOf(c)   == c.mc = c.ms + c.mr
 (* pan = pwr_accel / m_c [1/32 W/kg]: pan 2 dt = dv2  <=>  pan_q dt_q = 16 dv2_q                    *)
 PwrAccelOf(h, c) == c.pan * TrDt(h, c.k) = 16 * TrDV2(h, c.k)
-(* pwr_res = (sum of the six saved forces) (v_k + v_{k-1}) / 2  <=>  64 pr_q = F_q w_q;             *)
-(* pr is rounded (1/2 unit x 64), each force is rounded (6 x 1/2 unit x w)                          *)
-PwrResOf(h, c) == Abs(64 * c.pr - Sum(c.F) * TrW(h, c.k)) <= 33 + 3 * Abs(TrW(h, c.k))
+(* pwr_res = (sum of six saved forces) (v_k + v_{k-1}) / 2  <=>  64 pr_q = F_q w_q;                  *)
+(* pr is rounded (1/2 unit x 64), each force is rounded (6 x 1/2 unit x w). F is the force record    *)
+(* the power figure is judged against: callers accept the one saved with it or the one saved one     *)
+(* step earlier (same freedom of alignment as in section (c))                                        *)
+PwrResOf(h, c, F) == Abs(64 * c.pr - Sum(F) * TrW(h, c.k)) <= 33 + 3 * Abs(TrW(h, c.k))
 (* clip, in 1/32 W. Upper limit: the consist's published maximum and the published ramp            *)
 (* (previous wheel power + rate x dt, dt of the previous or of the current step: the statement     *)
 (* does not fix which); lower limit: minus the dynamic-braking capability in force before or after *)
